@@ -209,6 +209,7 @@ dns_found_callback sdk_dns_cb = NULL;
 void *sdk_dns_arg = NULL;
 char sdk_dns_name[260];
 
+void (*sdk_sent_hook)(const uint8_t *p, int len, int result) = NULL;
 static sint8 do_sent(struct espconn *c, uint8 *p, uint16 len) {
   int r = sdk_esp_default;
   if (sdk_esp_script_pos < sdk_esp_script_len)
@@ -222,6 +223,7 @@ static sint8 do_sent(struct espconn *c, uint8 *p, uint16 len) {
   } else
     fprintf(stdout, "%u", (unsigned)len);
   fputc('\n', stdout);
+  if (sdk_sent_hook) sdk_sent_hook(p, len, r);
   return (sint8)r;
 }
 sint8 espconn_sent(struct espconn *c, uint8 *p, uint16 len) {
